@@ -281,6 +281,12 @@ def main(argv=None):
                     plan.append((case, dict(s, policy="prefer", policy_arg={"keys": keys, "mode": mode},
                                             targeted=True, faults=[], reexec_rate=0.0), want_))
                 reach["targeted_followups"] += 2
+            if sim.watch_hits and P.followups is not None and run_no == 1 and o["status"] == "ok":
+                # M2 fired: some task wrote to a caller-owned buffer.  C10's matter by itself; here it steers
+                # the search - call again on the same objects with parameters that would expose the change
+                for fc in P.followups(case, st):
+                    plan.append((fc, dict(sched), want_))
+                reach["m2_followups"] += 1
             if run_no == 1 and P.variants is not None:
                 for vn, (vc, own_ref) in enumerate(P.variants(base_case, st)):
                     pol, arg = draw_policy(st["policy-variant%d" % vn])
